@@ -113,7 +113,8 @@ FetchEv ==
   /\ LET r == IF Ln.h = 1 THEN ring ELSE durable
          spec == Fetch(cfg, r, Ln.now, Ln.a, Ln.f, Ln.u)
          shapeOK == ResShape(Ln.res) = DropArch(FetchShape(cfg, Ln.now, Ln.a, Ln.f, Ln.u))
-     IN /\ P("C04") => shapeOK
+     IN /\ (P("C04") \/ P("C17")) => shapeOK
+        /\ P("C17") /\ spec.k = "ts" => Ln.res[5] = spec.vals
         \* values against the observed raw state
         /\ (P("C01") \/ (P("C05") /\ Ln.h = 2)) /\ shapeOK /\ spec.k = "ts" => Ln.res[5] = spec.vals
         \* values against the history of by-name writes (pure archives only)
